@@ -856,3 +856,19 @@ def mem_open(path, mode="r", *a, **k):
         return _MemFile(path, mode)
     import builtins
     return builtins.open(path, mode, *a, **k)
+
+
+def make_warnings():
+    """batchie wraps three sampler updates in a bare `except:` that only warns: under the engine a swallowed
+    exception is never counted as an explored path"""
+    import warnings as _w
+    m = types.ModuleType("warnings")
+    m.__dict__.update({k: v for k, v in _w.__dict__.items() if not k.startswith("__")})
+
+    def warn(message, *a, **k):
+        if E.CUR is not None:
+            E.CUR.latched = E.CUR.latched or E.Inconclusive("the code under test swallowed an exception and warned: %s" % (message,))
+            raise E.CUR.latched
+        return _w.warn(message, *a, **k)
+    m.warn = warn
+    return m
